@@ -45,3 +45,9 @@ package utils
 //@   fresh
 //@   ensures result["CPU"] == resource.milliCpu && result["Memory"] == resource.memory && result["GPU"] == resource.GetGpusQuota()
 //@ end
+
+//@ func ResourceRequirementsFromQuantities
+//@   props C08 C10
+//@   fresh
+//@   ensures result != nil && result.milliCpu == quantities["CPU"] && result.memory == quantities["Memory"]
+//@ end
